@@ -2,6 +2,7 @@ import RoaringModel.Lemmas.IOLemmas
 import RoaringModel.Lemmas.RoundTrip
 import RoaringModel.Lemmas.TreemapCodec
 import RoaringModel.Lemmas.TreemapCodecWF
+import RoaringModel.Lemmas.FidelityCodec
 /-!
 # C14 — I/O faults surface as errors; read/write chunking is irrelevant (32-bit half)
 
@@ -111,6 +112,42 @@ example : (Bitmap.serializeInto [{ key := 7, store := .array [5] }]
     { accRev := [], room := 5, zeroMode := true, sched := [.chunk 3, .intr, .chunk 1] }).2.bytes = [58, 48, 0, 0, 1] := by
   decide
 
+/-! ### the writer path the driver executes (fidelity audit)
+
+`Bitmap.serializeIntoM ovf` (IO.lean) evaluates the cardinality field `(container.len() - 1) as u16` in `u64`
+arithmetic: on an empty container that is a panic (overflow checks on) raised *between* two writes.  For a value
+without empty containers — every well-formed value — it is `serializeInto`, so `C14_write` holds for it and the panic
+path is never taken. -/
+
+/-- a well-formed value has no empty container -/
+theorem wf_len_pos (b : Bitmap) (h : Bitmap.WF b) : ∀ c ∈ b, 1 ≤ c.len := by
+  intro c hc
+  have hst : Store.WF c.store := (h.2 c hc).2
+  unfold Container.len Store.len
+  cases hs : c.store with
+  | array v => rw [hs] at hst; exact hst.2.1
+  | bitmap bs => rw [hs] at hst; have := hst.2; simp only []; omega
+
+/-- **mirror.** -/
+theorem C14_serializeInto_mirror_eq (ovf : Bool) (b : Bitmap) (h : Bitmap.WF b) (w : SWriter) :
+    Bitmap.serializeIntoM ovf b w = some (Bitmap.serializeInto b w) :=
+  Fidelity.serializeIntoM_eq ovf b (wf_len_pos b h) w
+
+/-- **C14_write for the executed writer path**: no panic, the sink holds exactly the first `room` bytes, `Ok` iff
+    everything fit — in both build configurations. -/
+theorem C14_write_mirror (ovf : Bool) (b : Bitmap) (h : Bitmap.WF b) (room : Nat) (zeroMode : Bool) (sched : List IoEv) :
+    ∃ r, Bitmap.serializeIntoM ovf b { accRev := [], room := room, zeroMode := zeroMode, sched := sched } = some r ∧
+      r.2.bytes = (Bitmap.serialize b).take room ∧ (r.1 = true ↔ (Bitmap.serialize b).length ≤ room) :=
+  ⟨_, C14_serializeInto_mirror_eq ovf b h _, C14_write b room zeroMode sched⟩
+
+/-- the panic path exists (empty container, overflow checks on) and comes only after the earlier writes succeeded:
+    a sink with room for 9 bytes fails first (`Err`), one with room for 10 reaches the panic -/
+example : (Bitmap.serializeIntoM true [⟨0, .array []⟩] { accRev := [], room := 9, zeroMode := false, sched := [] }).map
+        (fun r => (r.1, r.2.bytes)) = some (false, [58, 48, 0, 0, 1, 0, 0, 0, 0])
+    ∧ (Bitmap.serializeIntoM true [⟨0, .array []⟩] { accRev := [], room := 10, zeroMode := false, sched := [] }).isNone
+        = true := by
+  decide
+
 end Roaring.C14
 
 /-!
@@ -189,5 +226,14 @@ example : Treemap.deserialize true true
 example : (Treemap.serializeInto [(3, [{ key := 7, store := .array [5] }])]
     { accRev := [], room := 5, zeroMode := true, sched := [.chunk 3, .intr, .chunk 1] }).2.bytes = [1, 0, 0, 0, 0] := by
   decide
+
+/-- **mirror (64-bit).** The executed treemap writer path (`Treemap.serializeIntoM`) on a well-formed treemap:
+    no panic, and the outcome of `Treemap.serializeInto`, so `C14_t_write` holds for it. -/
+theorem C14_t_write_mirror (ovf : Bool) (t : Treemap) (h : Treemap.WFd Bitmap.WF t) (room : Nat) (zeroMode : Bool)
+    (sched : List IoEv) :
+    ∃ r, Treemap.serializeIntoM ovf t { accRev := [], room := room, zeroMode := zeroMode, sched := sched } = some r ∧
+      r.2.bytes = (Treemap.serialize t).take room ∧ (r.1 = true ↔ (Treemap.serialize t).length ≤ room) :=
+  ⟨_, Fidelity.tserializeIntoM_eq ovf t (fun p hp => wf_len_pos p.2 (h.parts p hp).2.1) _,
+    C14_t_write t room zeroMode sched⟩
 
 end Roaring.C14
